@@ -49,6 +49,21 @@ SCENARIOS = {
                         affinity_limits={'rack': 1, 'server': 1}, data_retention_timeout='2s')],
         groups={'proid.g1': 3},
         apps=['a1', 'a2', 'a3', 'a4']),
+    # terabyte-sized disks: capacities that differ by a few MB must still differ
+    'big': dict(
+        racks={'rack:r1': ['s1', 's2']}, partitions=[], traits=[],
+        sprofiles=[dict(cap=[4096, 4, 2097152], label='_default', traits=[]),
+                   dict(cap=[4096, 4, 2097140], label='_default', traits=[]),
+                   dict(cap=[262144, 4, 4096], label='_default', traits=[]),
+                   dict(cap=[262142, 4, 4096], label='_default', traits=[])],
+        server_init={'s1': 1, 's2': 3},
+        allocsets=[[_alloc('proid/x', '_default', [('proid.*', 1)])]],
+        aprofiles=[dict(name='proid.disk', demand=[512, 0, 1048576], affinity='disk',
+                        data_retention_timeout='0s'),
+                   dict(name='proid.mem', demand=[131072, 0, 512], affinity='mem',
+                        data_retention_timeout='0s'),
+                   dict(name='proid.small', demand=[512, 1, 512], affinity='small')],
+        groups={}, apps=['a1', 'a2', 'a3', 'a4', 'a5']),
     # the constants of MasterLag.tla: two equal servers, two small instances
     'lag': dict(
         racks={'rack:r1': ['s1', 's2']}, partitions=[], traits=[],
@@ -241,6 +256,28 @@ def gen_defer(scn, rng):
         hist.append(('Deliver', []))
         hist.append(('Cycle', []))
     hist.append(('Restart', []))
+    return hist
+
+
+def gen_resize(scn, rng):
+    """Scenario 'big': servers filled exactly, then re-registered (or their record
+    rewritten through a `servers` event) with a capacity a few MB smaller."""
+    hist = []
+    for j, a in enumerate(scn['apps']):
+        hist.append(('CreateApp', [a, 1 if j < 2 else (2 if j < 4 else 3)]))
+    hist.append(('Cycle', []))
+    near = {1: 2, 2: 1, 3: 4, 4: 3}
+    cur = dict(scn['server_init'])
+    for _ in range(rng.randrange(1, 4)):
+        s = rng.choice(sorted(cur))
+        hist.append(('NodeDown', [s]))
+        if rng.random() < 0.3:
+            hist.append(('Tick', [rng.choice([1, 2])]))
+        cur[s] = near[cur[s]] if rng.random() < 0.8 else rng.choice([1, 2, 3, 4])
+        hist.append(('NodeUp', [s, cur[s]]))
+        hist.append(('Cycle', []))
+    hist.append(('Restart', []))
+    hist.append(('Cycle', []))
     return hist
 
 
